@@ -202,6 +202,8 @@ def gen_cases(tier, seed):
         solver_exprs = solver_exprs[:9]
     for e in solver_exprs:
         cases.append({"kind": "solver", "expr": e, "seed": int(rng.integers(1 << 30)), "cost": 20})
+    for j in range(2 if tier == "quick" else 10):
+        cases.append({"kind": "closures", "seed": int(rng.integers(1 << 30)), "solve": j == 0, "cost": 15})
     return cases
 
 
@@ -472,7 +474,110 @@ def _solver_case(spec):
             "sample": {"expr": expr, "steps": len(traces[0]), "identical_to_plain": traces[0] == traces[1]}}
 
 
+def _make_profile(width, t_dep=False):
+    """Leaf functions that cannot be imported by name: closures made by a factory."""
+    if t_dep:
+        def profile(x, y, z, *, t):
+            return (1.0 + np.exp(-(x**2 + y**2 + z**2) / width**2)) * (1.0 + 0.2 * np.sin(t))
+    else:
+        def profile(x, y, z):
+            return 1.0 + np.exp(-(x**2 + y**2 + z**2) / width**2)
+    return profile
+
+
+def _closure_case(spec):
+    """Composites over closures / lambdas: serialisable (pickle, cloudpickle, deepcopy) and usable by the solver like
+    composites over importable functions."""
+    import copy as copy_mod
+
+    import cloudpickle
+    import tdgl
+
+    rng = np.random.default_rng(spec["seed"])
+    V, C = [], {"closure_pickle_checks": 0, "pickle_checks": 0, "value_checks": 0}
+    x, y, z = rng.normal(size=5), rng.normal(size=5), rng.normal(size=5)
+    w1, w2 = float(rng.uniform(0.5, 2)), float(rng.uniform(0.5, 2))
+    leaves = {
+        "closure": lambda: tdgl.Parameter(_make_profile(w1)),
+        "closure_t": lambda: tdgl.Parameter(_make_profile(w2, True), time_dependent=True),
+        "lambda": lambda: tdgl.Parameter(lambda x, y, z: 2.0 + 0.0 * x),
+        "module": lambda: tdgl.Parameter(f3, sigma=2.0),
+    }
+    raw = {"closure": lambda t: _make_profile(w1)(x, y, z), "closure_t": lambda t: _make_profile(w2, True)(x, y, z, t=t),
+           "lambda": lambda t: 2.0 + 0.0 * x, "module": lambda t: f3(x, y, z, sigma=2.0)}
+    combos = [("closure", "*", 2.5), (3, "+", "closure"), ("closure", "-", "module"), ("closure_t", "*", "closure"), ("lambda", "/", "closure"),
+              ("closure", "**", 2), (("closure", "+", "lambda"), "*", "closure_t"), (2.0, "*", ("closure_t", "-", 1))]
+
+    def build(e):
+        if isinstance(e, tuple):
+            a, op_, b = build(e[0]), e[1], build(e[2])
+            return OPS[op_](a, b)
+        return leaves[e]() if isinstance(e, str) else e
+
+    def value(e, t):
+        if isinstance(e, tuple):
+            return OPS[e[1]](value(e[0], t), value(e[2], t))
+        return raw[e](t) if isinstance(e, str) else e
+
+    for e in combos:
+        comp = build(e)
+        tdep = "closure_t" in repr(e)
+        kw = {"t": 0.37} if tdep else {}
+        want = value(e, 0.37)
+        for how, fn in (("pickle", lambda c: pickle.loads(pickle.dumps(c))), ("cloudpickle", lambda c: cloudpickle.loads(cloudpickle.dumps(c))), ("deepcopy", copy_mod.deepcopy)):
+            C["closure_pickle_checks"] += 1
+            C["pickle_checks"] += 1
+            try:
+                clone = fn(comp)
+                got = clone(x, y, z, **kw)
+                C["value_checks"] += 1
+                if not np.allclose(got, want, rtol=1e-13, atol=0):
+                    V.append({"kind": "pickled_value_mismatch", "mechanism": "pickle_changes_value", "detail": {"expr": repr(e), "how": how}})
+                if clone.time_dependent != comp.time_dependent:
+                    V.append({"kind": "pickled_flag_wrong", "mechanism": "pickle_changes_flag", "detail": {"expr": repr(e), "how": how}})
+            except Exception as exc:  # noqa: BLE001
+                V.append({"kind": "composite_over_closure_not_serialisable", "mechanism": "pickle_raised", "detail": {"expr": repr(e), "how": how, "error": repr(exc)[:200]}})
+        # the original still works after having been serialised
+        try:
+            if not np.allclose(comp(x, y, z, **kw), want, rtol=1e-13, atol=0):
+                V.append({"kind": "value_changed_by_serialising", "mechanism": "pickle_changes_value", "detail": {"expr": repr(e)}})
+        except Exception as exc:  # noqa: BLE001
+            V.append({"kind": "original_unusable_after_serialising", "mechanism": "pickle_raised", "detail": {"expr": repr(e), "error": repr(exc)[:200]}})
+    if spec.get("solve"):
+        # handed to the solver with an output file: the Solution (with the composite inside) is written at the end
+        import shutil
+        import tempfile
+
+        from .. import sim, zoo
+
+        def make_A(B):
+            def A(x, y, z):
+                x, y = np.atleast_1d(x), np.atleast_1d(y)
+                return np.stack([-B * y / 2, B * x / 2, np.zeros_like(x)], axis=1)
+            return A
+
+        dev = zoo.build_device(zoo.gen_device(rng, n_terminals=0, probes=0, size="tiny", smooth=0, film_kind="box", gamma=1.0))
+        d = tempfile.mkdtemp(prefix="vt_c16_")
+        C["solver_checks"] = 1
+        try:
+            opts = sim.build_options(dict(solve_time=0.2, dt_init=0.001, dt_max=0.02, adaptive=True, save_every=10, field_units="mT", current_units="uA"), output_file=d + "/out.h5")
+            sol = tdgl.solve(dev, opts, applied_vector_potential=2.0 * tdgl.Parameter(make_A(0.02)))
+            back = tdgl.Solution.from_hdf5(sol.path)
+            P = rng.normal(size=(4, 3))
+            a, b = sol.applied_vector_potential(P[:, 0], P[:, 1], P[:, 2]), back.applied_vector_potential(P[:, 0], P[:, 1], P[:, 2])
+            if not np.array_equal(np.asarray(a), np.asarray(b)):
+                V.append({"kind": "loaded_parameter_value_differs", "mechanism": "pickle_changes_value", "detail": {"expr": "2.0 * Parameter(closure)"}})
+        except Exception as exc:  # noqa: BLE001
+            V.append({"kind": "solver_rejected_composite", "mechanism": "solver_rejects_composite", "detail": {"expr": "2.0 * Parameter(closure)", "error": repr(exc)[:300]}})
+        finally:
+            shutil.rmtree(d, ignore_errors=True)
+    return {"violations": V[:8], "counters": C, "classes": ["closures", "solve=" + str(bool(spec.get("solve")))], "nontrivial": C["closure_pickle_checks"] > 0,
+            "nontrivial_n": C["closure_pickle_checks"], "key": f"closures:{spec['seed']}", "sample": {"serialisations": C["closure_pickle_checks"], "violations": len(V)}}
+
+
 def run_case(spec):
+    if spec["kind"] == "closures":
+        return _closure_case(spec)
     if spec["kind"] == "solver":
         return _solver_case(spec)
     rng = np.random.default_rng(spec["seed"])
